@@ -202,9 +202,11 @@ fn zstd_compress(_data: &[u8], _level: u32) -> io::Result<Cow<[u8]>> {
 // --------- lz4 ---------
 
 #[cfg(feature = "lz4")]
-fn lz4_decompress<R: io::Read>(data: R, out: &mut Vec<u8>) -> io::Result<()> {
+fn lz4_decompress<R: io::Read>(mut data: R, out: &mut Vec<u8>) -> io::Result<()> {
     use io::Read;
-    lz4_flex::frame::FrameDecoder::new(data).read_to_end(out).map(drop)
+    let mut input = Vec::new();
+    data.read_to_end(&mut input)?;
+    lz4_flex::frame::FrameDecoder::new(input.as_slice()).read_to_end(out).map(drop)
 }
 
 #[cfg(not(feature = "lz4"))]
